@@ -128,8 +128,8 @@ fn k_c17_proj_formula(region: u8, neg: bool) {
     // Collignon: t = sqrt(3 (1 - sin |lat|)) = sqrt 6 cos(|lat| / 2 + pi/4), x = pm1 t + offset, |y| = 2 - t.
     // Re-computing sqrt 6 * cos and pm1 * t gives the solver two copies of each multiplier (an equivalence check it does not finish
     // at full width): the value clauses are decided for the cosines with at most 10 and the pm1 with at most 13 significant bits
-    // (every exponent); for every value: |y| in [1, 2], x in [offset - t', offset + t'] with t' = 2 - |y|, on the side of the
-    // column centre given by the sign of pm1.
+    // (every exponent; also x in [offset - t', offset + t'] with t' = 2 - |y| for those pm1); for every value: |y| in [1, 2] and x on the
+    // side of the column centre given by the sign of pm1.
     let c = (alat * 0.5 + PI_OVER_FOUR_K).cos();
     let narrow_c = c.to_bits() & ((1u64 << 43) - 1) == 0;
     let narrow_p = pm1.to_bits() & ((1u64 << 40) - 1) == 0;
@@ -145,7 +145,9 @@ fn k_c17_proj_formula(region: u8, neg: bool) {
     }
     let t1 = 2.0 - ay;
     assert!(ay >= 1.0 - tol && ay <= 2.0, "C17: |y| outside [1, 2] in a polar cap");
-    assert!(ax >= off - t1 - tol && ax <= off + t1 + tol, "C17: proj x outside [offset - t, offset + t] (polar cap)");
+    // (for every pm1 this bound is the monotonicity of the float multiplier, which the SAT solver does not finish at full width:
+    // it is the image clause of the thorough harnesses c17_proj_{npc,spc}_*)
+    if narrow_p { assert!(ax >= off - t1 - tol && ax <= off + t1 + tol, "C17: proj x outside [offset - t, offset + t] (polar cap)"); }
     assert!(!(pm1 >= 0.0) || ax >= off, "C17: proj x on the wrong side of the column centre (polar cap)");
     assert!(!(pm1 <= 0.0) || ax <= off, "C17: proj x on the wrong side of the column centre (polar cap)");
   }
